@@ -421,6 +421,20 @@ def returned_arrays_stay_put(ctx, aotools, rng):
             if digest(np.asarray(arr)) != d:
                 ctx.fail("returned_array_changes_later:%s" % cls.__name__, "%s of %s was rewritten by a later call" % (what, cls.__name__), {"class": cls.__name__})
                 break
+    # ... also across a long run (a ring buffer that is repacked after ~1000 steps would rewrite old results)
+    scr = aotools.PhaseScreenVonKarman(int(rng.integers(5, 9)), 0.1, 0.2, 20.0, random_seed=int(rng.integers(0, 1000)))
+    held = []
+    for step in range(2600):
+        r = scr.add_row()
+        if step < 8 or step % 397 == 0:
+            held.append((step, r, digest(np.asarray(r))))
+    ctx.case("returned_arrays:long_run", key=("long", float(np.asarray(held[0][1]).flat[0])), nontrivial=True)
+    for step, arr, d in held:
+        ctx.count("returned_array_stability_checks")
+        ctx.count("oracle_evals")
+        if digest(np.asarray(arr)) != d:
+            ctx.fail("returned_array_changes_later:long_run", "the screen returned by add_row() #%d was rewritten during the next %d calls" % (step, 2600 - step), None)
+            break
     # plain functions: results of earlier calls are untouched by later calls on other data
     imgs = [np.random.default_rng(k).random((10, 10)) + 0.1 for k in range(3)]
     outs = []
